@@ -594,8 +594,12 @@ def run_property(modname, tier='quick', seed=0, rebaseline=False, only=None, can
         if b and not f.error:
             now = {base_name(r['name']) for r in f.results if r['kind'] != 'cover'}
             missing = [n for n in b['discharged'] if n not in now]
-            if missing and f.fn_hash == b['ast_sha']:
+            # a few names can come and go with path pruning (the feasibility probes have a time budget, so a path that is infeasible may or may not be pruned under load);
+            # the guard is against an engine that silently stops generating obligations, i.e. a substantial part missing
+            if missing and f.fn_hash == b['ast_sha'] and (len(missing) > max(3, len(b['discharged']) // 10) or not now):
                 rep.undecided.append(f'{f.name}: obligations recorded in the baseline are no longer generated: {missing[:3]}')
+            elif missing and f.fn_hash == b['ast_sha']:
+                rep.notes.append(f'{f.name}: {len(missing)} obligation name(s) of the baseline not generated in this run (path pruning): {missing[:3]}')
 
     groups = {}
     for f, r in failing:
